@@ -219,7 +219,8 @@ def raise_case(case):
         e = ns["catch"](None)
     else:
         if origin == "file":
-            path = _write(LIB if case.get("target_ign") else APP, "mod", case["src"] + salt)
+            placed = PLACES.get(case.get("place", "none"))
+            path = _write(placed or (LIB if case.get("target_ign") else APP), "mod", case["src"] + salt)
             target = _load(path, case["src"])["target"]
         elif origin == "exec":  # no file at all
             ns = {"x": 1, "y": 2}
@@ -465,7 +466,34 @@ def _ansi_formatter():
     return AnsiFormatter()
 
 
+# where the failing module lies relative to the working directory and the home directory of the run: in them, below
+# them, and in SIBLING directories whose names merely start like them (/base/project-x next to /base/project)
+CWD_DIR = os.path.join(WORK, "base", "project")
+HOME_DIR = os.path.join(WORK, "h", "user")
+PLACES = {"cwd": CWD_DIR, "cwd-sub": os.path.join(CWD_DIR, "pkg"), "cwd-x": CWD_DIR + "-x", "home": HOME_DIR,
+          "home-sub": os.path.join(HOME_DIR, "lib"), "home-x": HOME_DIR + "fs"}
+
+
 def run_history(case, shared=None):
+    """_run_history; for a case with a "place" the process works in CWD_DIR with HOME = HOME_DIR meanwhile"""
+    if case.get("place", "none") == "none":
+        return _run_history(case, shared)
+    old_cwd, old_home = os.getcwd(), os.environ.get("HOME")
+    for d in (CWD_DIR, HOME_DIR):
+        os.makedirs(d, exist_ok=True)
+    os.chdir(CWD_DIR)
+    os.environ["HOME"] = HOME_DIR
+    try:
+        return _run_history(case, shared)
+    finally:
+        os.chdir(old_cwd)
+        if old_home is None:
+            os.environ.pop("HOME", None)
+        else:
+            os.environ["HOME"] = old_home
+
+
+def _run_history(case, shared=None):
     """the case's exception is raised once and rendered once per entry of case["renders"] ([{"pat", "verb"}]; pat = which
     directory ignore_files_in() gets: "none" | "lib" | "app") in this process -> one "render" event per render"""
     from clikit.api.io import flags as F
@@ -588,7 +616,7 @@ def random_render_case(rng):
         else:
             chain.append({"kind": "ping", "ign": rng.random() < 0.3, "n": rng.choice([1, 2, 5, 20])})
     kind = rng.choice(EXC_KINDS)
-    return {"ansi_fmt": rng.random() < 0.4, "solutions": origin == "file" and rng.random() < 0.25, "solshape": rng.choice(SOLUTION_SHAPES), "shape": rng.choice(NOT_PYTHON),
+    return {"place": rng.choice(["none"] * 6 + list(PLACES)) if origin == "file" else "none", "ansi_fmt": rng.random() < 0.4, "solutions": origin == "file" and rng.random() < 0.25, "solshape": rng.choice(SOLUTION_SHAPES), "shape": rng.choice(NOT_PYTHON),
             "compiled": rng.random() < 0.4, "ctx": rng.choice(["none"] * 14 + ["long1200", "long1500", "circular", "circular"]),
             "origin": origin, "fname": rng.choice(["</error>", "<b>", "x</info>y", "<template>", "dir\\"]),
             "src": make_source(rng, at_top=rng.random() < 0.15), "exc": kind, "msg": rng.choice(MESSAGES),
@@ -780,7 +808,7 @@ def run(ctx):
         "backslash, string with an unbalanced closing tag, string and comment holding U+2028 / form feed / U+0085): every row not touched by a multi-row token is shown verbatim. "
         "Every emitted input is replayed on the real classes and compared.  Exceptions raised through generated source files "
         "(failing statement at varying positions incl. the first rows, multi-row statements and strings, comments, tabs, "
-        "non-ASCII, markup-like text, characters str.splitlines() takes for line ends: U+2028/2029, FF, NEL, FS/GS/RS), through exec'd and file-less code (also compiled under file names that look like style tags, under pseudo names whose source only linecache knows, and under the names of existing files that are not Python: unterminated string, unbalanced brackets, bad dedent, NUL byte, binary bytes, empty, shorter than the line number), with 33 adversarial messages x 8 exception kinds, "
+        "non-ASCII, markup-like text, characters str.splitlines() takes for line ends: U+2028/2029, FF, NEL, FS/GS/RS), through modules lying in / below / beside the working and the home directory (sibling directories whose names start like them), through exec'd and file-less code (also compiled under file names that look like style tags, under pseudo names whose source only linecache knows, and under the names of existing files that are not Python: unterminated string, unbalanced brackets, bad dedent, NUL byte, binary bytes, empty, shorter than the line number), with 33 adversarial messages x 8 exception kinds, "
         "a cause (also __context__ chains of 1200 / 1500 links - beyond the recursion limit - and circular ones), call chains through ignored / not ignored modules and recursion (direct, mutual) up to depth 60 are rendered "
         "at every verbosity, UTF-8 on/off, with/without an ignore pattern, simple/full; what was written is tokenised "
         "(head lines, listing entries, snippet rows with the source rows) and ErrorReportTrace decides every P-clause; the "
